@@ -33,34 +33,30 @@ def isDecimal (s : Str) : Bool := (decodeDecimal s).isSome
 def isNonDecimal (d : Dec) (s : Str) : Bool := (decodeNonDecimal d s).isSome
 def isNumeric (d : Dec) (s : Str) : Bool := isDecimal s || isNonDecimal d s
 
-/-- `is_datetime`: `TypeError` from the decoder is not caught. -/
-def isDatetime (d : Dec) (s : Str) : Except DErr Bool :=
+/-- `is_datetime` -/
+def isDatetime (d : Dec) (s : Str) : Bool :=
   match decodeDatetime d s with
-  | .ok _ => .ok true
-  | .error .value => .ok false
-  | .error e => .error e
+  | .ok _ => true
+  | .error .value => false
 
 /-- `is_unquoted_string` (token.py:198). -/
-def isUnquotedString (d : Dec) (s : Str) : Except DErr Bool :=
+def isUnquotedString (d : Dec) (s : Str) : Bool :=
   let g := d.g
-  if g.reserved.any (fun c => s.contains c) then .ok false
-  else if g.comments.any (fun p => isInfix p.1 s || isInfix p.2 s) then .ok false
-  else if isNumeric d s then .ok false
-  else match isDatetime d s with
-    | .error e => .error e
-    | .ok true => .ok false
-    | .ok false => .ok (!(g.whitespace.any (fun c => s.contains c)))
+  if g.reserved.any (fun c => s.contains c) then false
+  else if g.comments.any (fun p => isInfix p.1 s || isInfix p.2 s) then false
+  else if isNumeric d s then false
+  else if isDatetime d s then false
+  else !(g.whitespace.any (fun c => s.contains c))
 
 /-- `is_parameter_name` (token.py:232). -/
-def isParameterName (d : Dec) (s : Str) : Except DErr Bool :=
-  if d.g.reservedKeywords.any (fun w => foldEq w s) then .ok false
+def isParameterName (d : Dec) (s : Str) : Bool :=
+  if d.g.reservedKeywords.any (fun w => foldEq w s) then false
   else isUnquotedString d s
 
-def isSimpleValue (d : Dec) (s : Str) : Except DErr Bool :=
+def isSimpleValue (d : Dec) (s : Str) : Bool :=
   match decodeSimple d s with
-  | .ok _ => .ok true
-  | .error .value => .ok false
-  | .error e => .error e
+  | .ok _ => true
+  | .error .value => false
 
 end Tok
 end Pvl
